@@ -30,7 +30,7 @@ ASSUMPTIONS = [
     "pending-exchange bookkeeping and one-shot pre-selections are inspected only where the attributes exist (a renamed internal is skipped, not alarmed); leakage is otherwise judged by the following trials",
     "atoms in Hamiltonian workloads carry a momenta array from the start (an implicit zero momenta array becoming explicit is not a change of state)",
 ]
-REQUIRED = {"trials": 4000, "rejected": 1000, "failed": 300, "rejected_exchange_trials": 100, "rejected_cell_trials": 100, "rejected_hamiltonian_trials": 50, "trials_with_constraints": 300, "soft_checks": 500, "preselected_displacements": 50, "preselected_deletions": 10, "preselected_insertions": 10}
+REQUIRED = {"preselected_insertions_of_another_size": 5, "trials": 4000, "rejected": 1000, "failed": 300, "rejected_exchange_trials": 100, "rejected_cell_trials": 100, "rejected_hamiltonian_trials": 50, "trials_with_constraints": 300, "soft_checks": 500, "preselected_displacements": 50, "preselected_deletions": 10, "preselected_insertions": 10}
 SHARD_TIMEOUT = {"quick": 900, "thorough": 3000}
 FAMILIES = ["canonical", "hamiltonian", "isobaric", "isotension", "grand", "grand", "canonical", "isobaric"]
 
@@ -168,7 +168,15 @@ def run_one(rec: Rec, spec, steps, family):
                 mv.to_delete_label = int(pre_rng.choice(nn))
                 rec.count("preselected_deletions")
             else:
-                mv.to_add_atoms = mc.exchange_atoms.copy()
+                if pre_rng.random() < 0.5:
+                    mv.to_add_atoms = mc.exchange_atoms.copy()
+                else:
+                    # a second species through the same documented hook: a particle with another number of atoms than
+                    # the simulation's exchange template
+                    from ase import Atoms as _Atoms
+
+                    mv.to_add_atoms = _Atoms("CO", positions=[[0, 0, 0], [0, 0, 1.1]]) if len(mc.exchange_atoms) == 1 else _Atoms("Ar")
+                    rec.count("preselected_insertions_of_another_size")
                 rec.count("preselected_insertions")
         elif hasattr(mv, "to_displace_labels") and len(nn):
             mv.to_displace_labels = int(pre_rng.choice(nn))
